@@ -453,7 +453,17 @@ func (m *MonC05) Probe(idx int) {
 		res := w.RunMsgOn(bctx, m.R.buildMsg(Step{K: "claim", A: a, V: vi, Den: pk.Denom}), true)
 		if !res.OK {
 			m.fail(idx, "claim", res, s, pk.Val, pk.Denom, nil)
-			continue
+			if m.R.Halt || !strings.Contains(res.Err, "insufficient funds") {
+				continue
+			}
+			// look past the recorded pool-short finding: can the position exit if the pool could pay?
+			bctx, _ = w.Ctx.CacheContext()
+			m.R.TopUpPool(bctx)
+			rep.Class("C05.retried-with-solvent-pool")
+			if r2 := w.RunMsgOn(bctx, m.R.buildMsg(Step{K: "claim", A: a, V: vi, Den: pk.Denom}), true); !r2.OK {
+				m.fail(idx, "claim (pool made solvent)", r2, s, pk.Val, pk.Denom, nil)
+				continue
+			}
 		}
 		rep.Eval("C05.undelegate")
 		res = w.RunMsgOn(bctx, m.R.buildMsg(Step{K: "undelegate", A: a, V: vi, Den: pk.Denom, Amt: bal.String()}), true)
